@@ -128,6 +128,10 @@ func (rm *RequestManager) requestTask(requestID graphsync.RequestID) executor.Re
 			// take the lowest nonzero budget (global or per-request)
 			maxLinks = ipr.maxLinks
 		}
+		if maxLinks > math.MaxInt64 {
+			// the traversal counts links in an int64: a larger limit can never be reached
+			maxLinks = math.MaxInt64
+		}
 		if maxLinks > 0 {
 			budget = &traversal.Budget{
 				NodeBudget: math.MaxInt64,
